@@ -231,7 +231,15 @@ fn producer_steps(sh: &Arc<Shared>, env: &Arc<StartEnv>, producer: usize, steps:
                 seq += 1;
                 // the record is written before the send so that it is never later than the reception
                 sh.sends.lock().unwrap().push(json!([producer, seq, to, e.name, sh.ctx.us()]));
-                let _ = s.send(Box::new(e));
+                if st.get("via").and_then(|x| x.as_str()) == Some("executor") {
+                    // the public way for a host that holds no channel handle: FsmExecutor::send_to_session
+                    let sid = sh.sids.lock().unwrap().get(to).copied();
+                    if let Some(sid) = sid {
+                        let _ = env.executor.send_to_session(sid, e);
+                    }
+                } else {
+                    let _ = s.send(Box::new(e));
+                }
             }
         }
     }
